@@ -8,9 +8,9 @@ package c04
 
 import (
 	"fmt"
-	"os"
 	"math/big"
 	"math/rand"
+	"os"
 	"sort"
 	"strings"
 
